@@ -120,6 +120,34 @@ theorem C07_while_limit_stops (line : Int) (k : Nat) (s : Sx.St) (hk : Sx.maxLoo
   simp only [this, if_true]
   exact ⟨_, rfl⟩
 
+/-- … and so does a `FOR` pass past the limit — also one that ended in `CONTINUE`, `BREAK` or `RETURN`: the count is taken before the
+pending control flag is looked at -/
+theorem C07_for_limit_stops (line : Int) (k : Nat) (s : Sx.St) (hk : Sx.maxLoop ≤ k) : ∃ s', Sx.forNext line k s = .stop s' := by
+  unfold Sx.forNext
+  have : k + 1 > Sx.maxLoop := by omega
+  simp only [this, if_true]
+  exact ⟨_, rfl⟩
+
+/-- the pass with number `maxLoop` is the last one: from there `exec_while` / `exec_for` return without another round, whatever the
+condition and the body do (the result is the condition's state when it fails, the cut-off state otherwise) -/
+theorem C07_while_last_pass (fns : List Sx.Fn) (f : Nat) (line : Int) (c b : List Sx.Tok) (k : Nat) (s : Sx.St) (hk : Sx.maxLoop ≤ k) :
+    Sx.whileGo fns (f + 1) line c b k s = (Sx.valueWith (Sx.execList fns f) c s).2 ∨
+    ∃ s', Sx.whileNext line k (Sx.execList fns f b (Sx.valueWith (Sx.execList fns f) c s).2) = .stop s' ∧ Sx.whileGo fns (f + 1) line c b k s = s' := by
+  obtain ⟨s', hs'⟩ := C07_while_limit_stops line k (Sx.execList fns f b (Sx.valueWith (Sx.execList fns f) c s).2) hk
+  rw [Sx.whileGo]
+  by_cases hc : (Sx.valueWith (Sx.execList fns f) c s).1.toB = false
+  · left; simp only [hc, if_true]
+  · right; refine ⟨s', hs', ?_⟩; simp [hc, hs']
+
+theorem C07_for_last_pass (fns : List Sx.Fn) (f : Nat) (line : Int) (c n b : List Sx.Tok) (k : Nat) (s : Sx.St) (hk : Sx.maxLoop ≤ k) :
+    Sx.forGo fns (f + 1) line c n b k s = (Sx.valueWith (Sx.execList fns f) c s).2 ∨
+    ∃ s', Sx.forNext line k (Sx.execList fns f b (Sx.valueWith (Sx.execList fns f) c s).2) = .stop s' ∧ Sx.forGo fns (f + 1) line c n b k s = s' := by
+  obtain ⟨s', hs'⟩ := C07_for_limit_stops line k (Sx.execList fns f b (Sx.valueWith (Sx.execList fns f) c s).2) hk
+  rw [Sx.forGo]
+  by_cases hc : (Sx.valueWith (Sx.execList fns f) c s).1.toB = false
+  · left; simp only [hc, if_true]
+  · right; refine ⟨s', hs', ?_⟩; simp [hc, hs']
+
 -- non-vacuity: `WHILE(1){ PRINT(1) }` followed by a call of `FUNCTION FA(){ FOR(;1;){ } }` is lexer-shaped and has no call cycle
 def demoScriptFns : List Sx.Fn :=
   [⟨[], [], [.mk .for_ 0 0 0 none [] (some [.mk .tokens 0 0 0 none [] (some []), .mk .tokens 0 0 0 none [] (some [.mk .constInt 1 0 0 none [] none]),
